@@ -204,6 +204,49 @@ def structured_valid(rnd: random.Random, n: int) -> list[bytes]:
     return out
 
 
+def after(dt: float, item: Item) -> Callable[[Probe], bytes | None]:
+    """`item`, sent `dt` seconds (of the server's clock) after the previous request."""
+    from harness.c13_ecu import CLOCK
+
+    def f(p: Probe) -> bytes | None:
+        CLOCK.advance(dt)
+        return item(p) if callable(item) else item
+
+    return f
+
+
+def keep_alive_family(m: Model, session: int) -> list[Item]:
+    """A tester that keeps its session alive with suppressed TesterPresent / other unanswered requests, every 4 s
+    for 24 s: requests never stop, so nothing may fall back (no gap reaches the 10 s inactivity limit)."""
+    here = m.get(session, {})
+    out: list[Item] = [bytes([SID_RDBI, 0xF1, 0x86])]
+    sa = [x for x in (here.get(SID_SA) or []) if x % 2 == 1][:1]
+    for sub in sa:
+        out += [bytes([SID_SA, sub]), right_key(sub + 1)]
+    for _ in range(6):
+        out.append(after(4.0, bytes([SID_TP, 0x80])))
+    out += [after(4.0, bytes([SID_RDBI, 0xF1, 0x86])), bytes([SID_TP, 0x00])]
+    for sub in sa:
+        out += [after(4.0, bytes([SID_SA, sub | 0x80])), after(4.0, bytes([SID_TP, 0x80])), after(4.0, bytes([SID_TP, 0x80])),
+                after(1.0, bytes([SID_RDBI, 0xF1, 0x86]))]
+    return out
+
+
+def idle_family(m: Model, session: int) -> list[Item]:
+    """More than 10 s without any request at different points of a security-access handshake and around session
+    changes (the server falls back to its power-on state; whatever comes next must still be answered properly)."""
+    here = m.get(session, {})
+    out: list[Item] = []
+    sa = [x for x in (here.get(SID_SA) or []) if x % 2 == 1][:2]
+    for sub in sa:
+        out += [bytes([SID_SA, sub]), after(11.0, right_key(sub + 1)), bytes([SID_SA, sub]), right_key(sub + 1),
+                after(11.0, bytes([SID_SA, sub + 1, 0x01])), after(11.0, bytes([SID_TP, 0x00])),
+                bytes([SID_SA, sub]), after(30.0, bytes([SID_TP, 0x80])), right_key(sub + 1)]
+    out += [after(11.0, bytes([SID_RDBI, 0xF1, 0x86])), after(11.0, bytes([SID_SA, 0x02, 0xAA])),
+            after(11.0, bytes([SID_DSC, 0x01])), after(11.0, bytes([SID_ER, 0x01]))]
+    return out
+
+
 def structured_boundary() -> list[bytes]:
     """Well-formed requests built with gallia's own request classes at the BOUNDARY values of their parameters
     (zero / one / maximal addresses, sizes, identifiers, masks; empty and long records; explicit
@@ -356,5 +399,5 @@ async def run_history(p: Probe, m: Model, items: list[Item], *, home: int | None
     return steps
 
 
-__all__ = ["structural_family", "short_family", "structured_valid", "structured_boundary", "model_aware_valid", "sweep01", "sampled23",
+__all__ = ["structural_family", "short_family", "structured_valid", "structured_boundary", "after", "keep_alive_family", "idle_family", "model_aware_valid", "sweep01", "sampled23",
            "sf256", "run_history", "right_key", "wrong_key", "unoffered_session", "parsable"]
